@@ -77,6 +77,8 @@ type Exec struct {
 	boxOf    map[string]boxedVal
 	curCall  *ssa.CallCommon
 	paramRefs []Term // references received as parameters (allocated at entry, hence always)
+	writeLog  []heapWrite
+	freshRefs map[string]bool // references allocated by this function
 	allSorts map[string]Sort // never rolled back
 }
 
@@ -641,6 +643,7 @@ func (x *Exec) allocRef(st *State, hint string) Term {
 	as := arraySort(SRef, SBool)
 	al := x.heapGet(st, allocHeap, as)
 	x.vc.assume(and(not(eq(r, tNil)), not(sel(al, r))), "fresh allocation")
+	x.freshRefs[r.S] = true
 	x.heapSet(st, allocHeap, sto(al, r, tTrue))
 	return r
 }
@@ -872,7 +875,7 @@ func (x *Exec) fnName() string {
 }
 
 func (x *Exec) newEnv(cur, old *State) *Env {
-	e := &Env{x: x, cur: cur, old: old, vars: map[string]SVal{}, pkg: x.pkg, fn: x.fn}
+	e := &Env{x: x, cur: cur, loc: cur, old: old, vars: map[string]SVal{}, pkg: x.pkg, fn: x.fn}
 	for k, v := range x.params {
 		e.vars[k] = v
 	}
@@ -1237,6 +1240,7 @@ func (x *Exec) enterLoop(li *loopInfo, st *State, pc Term) {
 	}
 	// 2. discovery pass: which state components does the body modify?
 	sn := x.snap()
+	logStart := len(x.writeLog)
 	savedVals := map[ssa.Value]Term{}
 	for _, in := range b.Instrs {
 		if ph, ok := in.(*ssa.Phi); ok {
@@ -1250,6 +1254,7 @@ func (x *Exec) enterLoop(li *loopInfo, st *State, pc Term) {
 		}
 	}
 	written := x.diffStates(st, li)
+	loopWrites := append([]heapWrite(nil), x.writeLog[logStart:]...)
 	x.restore(sn)
 	for k, v := range savedVals {
 		x.vals[k] = v
@@ -1274,6 +1279,56 @@ func (x *Exec) enterLoop(li *loopInfo, st *State, pc Term) {
 			x.vals[ph] = x.vc.fresh(ph.Name()+"_loop", x.w.sortOf(ph.Type()))
 		}
 	}
+	// second discovery pass from the havocked state (an arbitrary iteration): which objects does the body write?
+	// (loop-carried variables are unknown here, so a write through them is not mistaken for a write to a fresh object)
+	{
+		sn2 := x.snap()
+		logStart2 := len(x.writeLog)
+		saved2 := map[ssa.Value]Term{}
+		for _, in := range b.Instrs {
+			if ph, ok := in.(*ssa.Phi); ok {
+				saved2[ph] = x.vals[ph]
+			}
+		}
+		x.forced[b] = &edgeState{cond: pc, st: hst}
+		for _, blk := range x.order {
+			if li.body[blk] {
+				x.execBlock(blk)
+			}
+		}
+		loopWrites = append([]heapWrite(nil), x.writeLog[logStart2:]...)
+		x.restore(sn2)
+		for k, v := range saved2 {
+			x.vals[k] = v
+		}
+	}
+	// automatic loop frame: a heap that the body writes only at objects allocated by this function keeps the contents
+	// of every object that was allocated when the function was entered
+	alloc0 := x.heapInit(allocHeap, arraySort(SRef, SBool))
+	for _, w := range written.heaps {
+		if w == allocHeap || strings.HasPrefix(w, "G:") {
+			continue
+		}
+		onlyFresh := true
+		seen := false
+		for _, lw := range loopWrites {
+			if lw.heap != w {
+				continue
+			}
+			seen = true
+			if !x.freshRefs[lw.ref] {
+				onlyFresh = false
+			}
+		}
+		if !seen || !onlyFresh {
+			continue
+		}
+		before := x.heapGet(st, w, x.heapSorts0(w, st))
+		x.qn++
+		r := fmt.Sprintf("r!q%d", x.qn)
+		x.vc.assume(T(SBool, "(forall ((%s Ref)) (! (=> (select %s %s) (= (select %s %s) (select %s %s))) :pattern ((select %s %s))))", r, alloc0.S, r, hst.heaps[w].S, r, before.S, r, hst.heaps[w].S, r),
+			"loop frame: heap "+w+" is written only at objects allocated by this function")
+	}
 	// allocation only grows
 	if contains(written.heaps, allocHeap) {
 		x.qn++
@@ -1290,7 +1345,7 @@ func (x *Exec) enterLoop(li *loopInfo, st *State, pc Term) {
 		for _, c := range li.ann.Invariants {
 			env := x.newEnv(hst, x.entry)
 			env.loop = li
-			x.vc.assume(implies(pc, x.evalClause(env, c)), "loop invariant "+c.Name)
+			x.vc.assumeTagged(implies(pc, x.evalClause(env, c)), "loop invariant "+c.Name, c.Excl)
 		}
 	}
 	x.runBody(b, hst, pc)
